@@ -237,10 +237,26 @@ pub fn c14_case(case: &Value, acc: &mut CompAcc) {
                     }
                 }
                 acc.state(&(cap, rate.to_bits(), fam, which), true);
-                // refill for the second round
-                for &p in &added {
-                    b.add(p);
+                // the emptied filter takes the very hash it was last asked about as a new one
+                // (added[0] went through contains_or_add just before the reset / clear) ...
+                if !b.contains_or_add(added[0]) {
+                    acc.fail("bloom-not-emptied", format!("after {}() contains_or_add({:#x}) answers 'already present' on the emptied filter", which, added[0]));
+                    return;
                 }
+                if !b.contains(added[0]) || b.contains_or_add(added[0]) {
+                    acc.fail("bloom-false-negative", format!("after {}() hash {:#x} was added through contains_or_add but is reported absent", which, added[0]));
+                    return;
+                }
+                // ... refill for the second round, alternating the entry points again, the last
+                // call before the next reset / clear being contains_or_add of the first hash
+                for (i, &p) in added.iter().enumerate() {
+                    if i % 2 == 0 {
+                        b.add(p);
+                    } else {
+                        let _ = b.contains_or_add(p);
+                    }
+                }
+                let _ = b.contains_or_add(added[0]);
             }
         }
         _ => {
@@ -614,6 +630,8 @@ fn c13_tiny(case: &Value, acc: &mut CompAcc) {
                     continue;
                 }
                 let before: Vec<i64> = keys.iter().map(|k| t.sketch_estimate(*k)).collect();
+                // an access that only enters the doorkeeper leaves the counters as they are
+                let doorkeeper_only = !t.doorkeeper_contains(keys[sym]);
                 t.increment(keys[sym]);
                 counts[sym] += 1;
                 w += 1;
@@ -633,7 +651,7 @@ fn c13_tiny(case: &Value, acc: &mut CompAcc) {
                             return;
                         }
                         let a = t.sketch_estimate(*k);
-                        if a < before[i] >> 1 || a > (before[i] + 1) >> 1 {
+                        if a < before[i] >> 1 || a > (before[i] + 1) >> 1 || (doorkeeper_only && a != before[i] >> 1) {
                             acc.fail(
                                 "tiny-reset-not-halving",
                                 format!("num_counters {}: sketch estimate of {:#x} went {} -> {} across the aging reset (expected {} or {})", nc, k, before[i], a, before[i] >> 1, (before[i] + 1) >> 1),
